@@ -188,7 +188,14 @@ func (e *Engine) vpCall(st *State, name string, args []Value, site ssa.Instructi
 		case "unsat":
 			e.res.Discharged++
 		case "sat":
-			e.reportFindingInQuery(st, "assert", label, where)
+			// a model of every input is needed: re-ask without slicing
+			e.sol.EndQuery()
+			if e.sol.QueryFull(neg) == "sat" {
+				e.reportFindingInQuery(st, "assert", label, where)
+			} else {
+				e.res.Inconclusive++
+				e.res.InconclusiveAt["assert "+label+" (no model of the full path condition)"]++
+			}
 		default:
 			e.res.Inconclusive++
 			e.res.InconclusiveAt["assert "+label]++
